@@ -282,7 +282,18 @@ class Replayer:
         if kappa > 1e6:
             self.chk.skip("polar: stretch conditioning factor above 1e6")
             return
-        ok, out = call(self.T.polar_decompose, M, left)
+        # the side flag in the forms a client writes it: a Python bool or a numpy bool (the value of `det(F) > 0` or
+        # `mask.any()`), positionally or by keyword, and left out where the documented default says the same
+        self._polar_form = getattr(self, "_polar_form", 0) + 1
+        form = self._polar_form % 5
+        flag = np.bool_(left) if form in (1, 3) else bool(left)
+        sig["flag"] = ("python-bool", "numpy-bool", "python-bool-keyword", "numpy-bool-keyword", "default-or-python-bool")[form]
+        if form in (2, 3):
+            ok, out = call(lambda m: self.T.polar_decompose(m, left=flag), M)
+        elif form == 4 and left:
+            ok, out = call(lambda m: self.T.polar_decompose(m), M)
+        else:
+            ok, out = call(self.T.polar_decompose, M, flag)
         if not ok:
             self.judge("polar_decompose", "returns", False, out, None, sig=sig, replay=rep)
             return
@@ -548,7 +559,7 @@ def sample_measures(T, rp, rng, n):
         for left in (True, False):
             info = dict(A=A.tolist(), left=left, cond=cond)
             fn = "polar_decompose"
-            out = memo(lambda left=left: np.stack([np.asarray(z, dtype=float) for z in T.polar_decompose(A, left)]))
+            out = memo(lambda left=left, t=t: np.stack([np.asarray(z, dtype=float) for z in T.polar_decompose(A, np.bool_(left) if t % 2 else left)]))
             measure(fn, "polar-orthogonal", lambda out=out: rel(out()[0].T @ out()[0], np.eye(3), 1.0), k, **info)
             measure(fn, "polar-symmetric", lambda out=out: rel(out()[1], out()[1].T, na), k, **info)
             measure(fn, "polar-psd", lambda out=out: max(0.0, -float(np.linalg.eigvalsh((out()[1] + out()[1].T) / 2).min())) / na, k, **info)
